@@ -94,6 +94,8 @@ def main():
         c.violation("partition of %s (sites %s, build %s, partition %s) is unsound: blocks %s" % (
             s["id"], s["sites"], json.dumps(s["build"])[:200], json.dumps(s["partition"]), bad["block"]), s, cls=s["cls"])
         pos += v.matched + 1
+    import cplxtier
+    cplxtier.run(c, {"q": "c07"}, "SymmetryTrace", "C07", "symmetry analysis", 5 if not thorough else 50)
     c.rule = "catalogue + %d random Hermitian models (<= %d modes, spinless / 2- / 3-component sites) x {default, ignored, custom linear sets}; non-trivial = more than one block" % (nrand, 5 if thorough else 4)
     c.trusted = ["TLC", "harness c07 projection"]
     c.assumptions = ["exact Hamiltonian = documented operators of the build calls (C04)", "custom candidates are diagonal in the Fock basis"]
